@@ -219,11 +219,11 @@ def C09(tier, seed):
         # three slots on two frames: a repainted node can be a dividing parent (two edges into one frame)
         specs = [("paint", 3, G2, a), ("UserAddEdge", 3, G3, a), ("UserDeleteNode", 3, G3, a),
                  ("UserSwapPredecessors", 3, G3, a)]
-        en = [("iou", 3, G3, {})]
+        en = [("iou", 3, G3, {}), ("iou", 3, G3, {"iou": True, "stale_keys": ["iou"]})]
     else:
         specs = [("paint", 3, G3, a), ("paint", 2, G3D, a), ("UserAddEdge", 4, G3, a), ("UserDeleteNode", 4, G3, a),
                  ("UserSwapPredecessors", 4, G3, a), ("UserAddNode", 3, G3, a)]
-        en = [("iou", 4, G3, {}), ("iou", 3, (4, 1, 2), {})]
+        en = [("iou", 4, G3, {}), ("iou", 3, (4, 1, 2), {}), ("iou", 4, G3, {"iou": True, "stale_keys": ["iou"]})]
     return _seg("C09", tier, seed, specs, en)
 
 
